@@ -42,7 +42,7 @@ def run(pid, tier, seed, replay=None):
     # ---- stream: grammars with error rules, inputs = sentences with 1-3 edits ----
     pairs = []
     stats = {'grammars': 0, 'pairs': 0, 'sentences': 0, 'nonsentences': 0, 'with_error_rules': 0}
-    ngr = ((60 if pid == 'C07' else 300) if quick else 2500)
+    ngr = (60 if quick else 500) if pid == 'C07' else (300 if quick else 2500)
     corpus = [
         # statement / expression grammar of the test suite with error rules
         (gen.Gram([('i', 105), (';', 59), ('(', 40), (')', 41), ('+', 43)],
@@ -168,13 +168,11 @@ def run(pid, tier, seed, replay=None):
             n = len(w)
             toks = w + ['$eof']
             m = cfg['match']
-            for b in range(0, e + 1):
-                for f in range(0, n + 1 - e + 1):
-                    rest = toks[e + f:]
-                    if not rest:
-                        continue
-                    seq = w[:b] + ['error'] + rest
-                    extra_q.append(shift_query(augs[i], names[i], seq)); extra_idx.append(('simple', i, ci, b, f, len(rest)))
+            ga = augs[i]
+            enc = ga.enc_rules(names[i])
+            tt = [ga.tnum[x] for x in toks]
+            extra_q.append('SIMPLEMIN ' + ' '.join(map(str, enc + [ga.nnum['$S'], ga.tnum['error'], e, m, len(tt)] + tt)))
+            extra_idx.append(('simplemin', i, ci))
         if pid == 'C07' and p.get('root') is not None and p['rc'] == 0 and len(p['errs']) <= 3 and not p.get('truncated'):
             # candidate repairs: one segment per callback, total replaced = reported ignored
             total = sum(max(0, x[4] - x[2]) for x in p['errs'])
@@ -203,14 +201,19 @@ def run(pid, tier, seed, replay=None):
                     t = [ga.tnum[x] for x in toks2]
                     extra_q.append('TRANSA ' + ' '.join(map(str, [FUEL] + enc + [len(codes)] + codes + [ga.tnum['error'], ga.nnum['$S'], len(t)] + t + attrs2)))
                     extra_idx.append(('repair', i, ci, segs))
-    extra = yvlib.run_oracle(extra_q) if extra_q else []
+    import time as _t
+    _t0 = _t.time()
+    extra = yvlib.run_oracle(extra_q, qtimeout=(3 if pid == 'C07' else None)) if extra_q else []
+    stats['deep_results_skipped'] = {'count': len(cp.DEEP), 'node_counts': sorted(set(cp.DEEP))[:10]}
+    stats['second_oracle_round'] = {'queries': len(extra_q), 'seconds': round(_t.time() - _t0, 1),
+                                    'by_kind': {k: sum(1 for x in extra_idx if x[0] == k) for k in set(x[0] for x in extra_idx)},
+                                    'unanswered': sum(1 for a in extra if a == 'none')}
     simple, denote, repair = {}, {}, {}
     for key, a in zip(extra_idx, extra):
-        if key[0] == 'simple':
-            _, i, ci, b, f, nrest = key
-            if a != 'none':
-                k, acc = a.split()
-                simple.setdefault((i, ci), []).append((b, f, int(k), acc == '1', nrest))
+        if key[0] == 'simplemin':
+            _, i, ci = key
+            if a not in ('none', 'inf') and not a.startswith('error'):
+                simple[(i, ci)] = int(a)
         elif key[0] == 'denote':
             denote[(key[1], key[2])] = cp.parse_denote(a)
         else:
@@ -301,18 +304,11 @@ def run(pid, tier, seed, replay=None):
                 continue
             e = first_bad[i]
             m = cfg['match']
-            best = None
-            for (b, f, k, acc, nrest) in simple.get(key, []):
-                need = b + 1 + min(m, nrest)
-                ok = (k >= need) if nrest >= m else acc
-                if ok:
-                    c = (e - b) + f
-                    if best is None or c < best[0]:
-                        best = (c, b, f)
+            best = simple.get(key)      # least cost of a successful simple recovery (SimpleRecovery.min_simple_cost)
             reported = errs[0][4] - errs[0][2]
-            if best is not None and reported > best[0]:
-                V('notminimal', 'first recovery ignores %d tokens; going back to position %d and skipping %d (cost %d) is a simple recovery' % (
-                    reported, best[1], best[2], best[0])); continue
+            if best is not None and reported > best:
+                V('notminimal', 'first recovery ignores %d tokens; a simple recovery (back to an earlier position expecting `error\', skip forward) ignoring %d exists' % (
+                    reported, best)); continue
     chk.cov['rule'] = ('random grammars with 0-3 `error\' rules (strict for C06) x (random derivations with 1-3 token edits, an extra first token, a dropped last token) '
                        'x lookahead levels x recovery_match 1..5; non-trivial = the input is not a sentence')
     return chk.finish(extra_cov={'stream': stats})
